@@ -385,4 +385,6 @@ def main(tier):
     import bounds
     bounds.check(rep, {'crc', 'crc_copy', 'adler'}, 'CRC', 30)
     bounds.check_len_width(rep, {'crc', 'crc_copy', 'adler'}, 'CRC', 31)
+    import stridecover
+    stridecover.check(rep, 'CRC', {'crc', 'crc_copy', 'adler'}, 80)
     return rep.finish()
